@@ -46,6 +46,7 @@ function body(k, me) {
     var a = acts[i];
     switch (a.k) {
       case "log": LOG.push("l:" + me); break;
+      case "slp": __sleep(a.d); LOG.push("l:" + me); break;
       case "then": (function (a) { var id = sched("p", a.a, me); Promise.resolve().then(function () { run(a.a, id, "p"); }); })(a); break;
       case "imm": (function (a) { var id = sched("i", a.a, me); H[a.h] = setImmediate(function () { run(a.a, id, "i"); }); HID[a.h] = id; })(a); break;
       case "st": (function (a) { var id = sched("t", a.a, me); H[a.h] = setTimeout(function () { run(a.a, id, "t"); }, a.d); HID[a.h] = id; })(a); break;
@@ -83,6 +84,8 @@ func execProgram(p program) (out string) {
 			}
 		}()
 		loop.Run(func(vm *goja.Runtime) {
+			// a callback that keeps the loop busy while other timers expire
+			vm.Set("__sleep", func(ms int) { time.Sleep(time.Duration(ms) * time.Millisecond) })
 			jb, _ := json.Marshal(p.Cbs)
 			if _, err := vm.RunString("var PROG = " + string(jb) + ";"); err != nil {
 				panic(err)
@@ -156,10 +159,55 @@ func (g *gen) wide() program {
 	return p
 }
 
+// busy: a callback blocks long enough for other timers to expire and queue up behind it, then clears one of them
+// (or an interval), schedules reactions and logs: whatever has expired meanwhile must wait for the end of this
+// synchronous block and for the reactions
+func (g *gen) busy() program {
+	r := g.r
+	var p program
+	main := []act{{K: "st", A: 1, D: 0, H: 0}}
+	for _, k := range []int{2, 3, 4} {
+		if r.Chance(25) {
+			main = append(main, act{K: "si", A: k, D: 1 + r.Intn(2), N: 1 + r.Intn(2), H: k - 1})
+		} else {
+			main = append(main, act{K: "st", A: k, D: 1 + r.Intn(4), H: k - 1})
+		}
+	}
+	if r.Chance(40) {
+		main = append(main, act{K: "imm", A: 5, H: 0})
+	}
+	p.Cbs = append(p.Cbs, main)
+	b := []act{{K: "slp", D: 8 + r.Intn(8)}}
+	if r.Chance(60) {
+		b = append(b, act{K: "then", A: 5})
+	}
+	b = append(b, act{K: "log"}, act{K: "clr", A: 1 + r.Intn(3)})
+	if r.Chance(50) {
+		b = append(b, act{K: "clr", A: 1 + r.Intn(3)})
+	}
+	if r.Chance(40) {
+		b = append(b, act{K: "then", A: 5})
+	}
+	b = append(b, act{K: "log"})
+	p.Cbs = append(p.Cbs, b)
+	for k := 2; k <= 5; k++ {
+		c := []act{{K: "log"}}
+		if k < 5 && r.Chance(30) {
+			c = append(c, act{K: "slp", D: 3 + r.Intn(4)}, act{K: "clr", A: 1 + r.Intn(3)}, act{K: "log"})
+		}
+		p.Cbs = append(p.Cbs, c)
+	}
+	g.st.Hit("program:busy")
+	return p
+}
+
 func (g *gen) program() program {
 	r := g.r
 	if r.Chance(15) {
 		return g.wide()
+	}
+	if r.Chance(15) {
+		return g.busy()
 	}
 	n := 4 + r.Intn(6)
 	timers := r.Chance(60)
